@@ -147,8 +147,53 @@ BASE_ROOTS = {'inp.data', 'dassh_input.data', 'dassh_inp.data',
               'input_obj.data', 'dassh_input_obj.data'}
 
 
+_FRESH = {'names': None}
+
+
+def _is_fresh_call(v):
+    return isinstance(v, ast.Call) and (
+        (isinstance(v.func, ast.Attribute) and v.func.attr == 'clone') or
+        (src(v.func) in ('copy.deepcopy', 'deepcopy')) or
+        (_FRESH['names'] and isinstance(v.func, ast.Attribute) and
+         v.func.attr in _FRESH['names']))
+
+
+def init_fresh_returners(repo):
+    """Names of package methods/functions that return a clone / deep copy
+    of the input they hold (e.g. Orificing._setup_input_perfect)."""
+    names = set()
+    _FRESH['names'] = names
+    for _ in range(3):
+        for fi in repo.all_funcs():
+            rets = [r for r in U.walk_no_nested(fi.node)
+                    if isinstance(r, ast.Return) and r.value is not None]
+            if not rets:
+                continue
+            ok = True
+            for r in rets:
+                if isinstance(r.value, ast.Name):
+                    defs = [a for a in U.assigns_of(fi.node, r.value.id)
+                            if isinstance(a, ast.Assign)]
+                    if not defs or not all(_is_fresh_call(a.value)
+                                           for a in defs):
+                        ok = False
+                elif not _is_fresh_call(r.value):
+                    ok = False
+            if ok and fi.name not in ('clone',):
+                names.add(fi.name)
+    return names
+
+
 def roots_for(fi):
     roots = set(BASE_ROOTS)
+    # a local re-bound to a clone / deep copy of the input is a fresh object
+    # (DASSH_Input.clone deep-copies .data): barrier
+    for r in list(roots):
+        base = r.split('.')[0]
+        for a in U.assigns_of(fi.node, base):
+            v = getattr(a, 'value', None)
+            if _is_fresh_call(v):
+                roots.discard(r)
     if fi.cls is not None and fi.cls.name in ('DASSH_Input',
                                               'DASSHPower_Input'):
         roots.add('self.data')
